@@ -14,12 +14,15 @@ func seedKinds() map[string][]Node {
 		"redir2":   {{URL: H + "/r2", Kind: "redirect", Location: "/r1"}, {URL: H + "/r1", Kind: "redirect", Code: 302, Location: H + "/page"}, {URL: H + "/page", Kind: "html"}},
 		"404":      {{URL: H + "/gone", Kind: "status", Code: 404}},
 		"500":      {{URL: H + "/boom", Kind: "fail5xx"}},
+		"badpdf":   {{URL: H + "/doc.pdf", Kind: "badpdf"}},
+		"emptyxml": {{URL: H + "/sitemap.xml", Kind: "emptyxml"}},
 		"nodot":    {},
 		"excluded": {},
 	}
 }
 
 var seedURL = map[string]string{"page": H + "/page", "redir1": H + "/r1", "redir2": H + "/r2", "404": H + "/gone", "500": H + "/boom",
+	"badpdf": H + "/doc.pdf", "emptyxml": H + "/sitemap.xml",
 	"nodot": "http://nodot/x", "excluded": "http://web.archive.org/web/x"}
 
 // assetKinds: reference text in the page plus the nodes behind it.
@@ -45,6 +48,8 @@ func assetKinds() map[string]asset {
 		"flaky":    {H + "/flaky.png", []Node{{URL: H + "/flaky.png", Kind: "flaky", FailN: 1}}},
 		"429":      {H + "/limited.png", []Node{{URL: H + "/limited.png", Kind: "status", Code: 429}}},
 		"cut":      {H + "/cut.png", []Node{{URL: H + "/cut.png", Kind: "cut"}}},
+		"badpdf":   {H + "/a.pdf", []Node{{URL: H + "/a.pdf", Kind: "badpdf"}}},
+		"emptyxml": {H + "/a.xml", []Node{{URL: H + "/a.xml", Kind: "emptyxml"}}},
 	}
 }
 
@@ -77,8 +82,8 @@ func MkSite(name, seedKind string, assets []string) SiteDef {
 // sweep: every seed kind x every multiset of <=2 asset kinds (assets only matter for seeds that reach the page).
 func SweepSites(tier string) []SiteDef {
 	var out []SiteDef
-	akeys := []string{"bin", "samepage", "js", "exhost", "404", "500", "redir", "redirB", "redirEx", "m3u8", "slash", "flaky", "429", "cut"}
-	for _, sk := range []string{"404", "500", "nodot", "excluded"} {
+	akeys := []string{"bin", "samepage", "js", "exhost", "404", "500", "redir", "redirB", "redirEx", "m3u8", "slash", "flaky", "429", "cut", "badpdf", "emptyxml"}
+	for _, sk := range []string{"404", "500", "nodot", "excluded", "badpdf", "emptyxml"} {
 		out = append(out, MkSite("seed="+sk, sk, nil))
 	}
 	for _, sk := range []string{"page", "redir1", "redir2"} {
